@@ -93,7 +93,7 @@ func Verif_C13_admission() {
 		if verifTier() >= 1 {
 			d = 2
 		}
-		verifDelayBound(d) // schedules of accept path / manager / new FSM with up to d delays
+		verifDelayBound(d)             // schedules of accept path / manager / new FSM with up to d delays
 		p0.p.incomingConnection(first) // no quiescence: the next connection races the new FSM's first transition
 	case c13OutEstablished:
 		outConn.send(openMessageType, mkOpenBody(65001, 90, 0x0a000002))
